@@ -137,6 +137,19 @@ type Recorder struct {
 	// Reenter, if set, is called (not nested) every time the filter function "fre" runs.
 	Reenter func()
 	inside  bool
+	// PanicNext makes the next user function that is called panic (once): a user function may
+	// panic, the caller may recover, and the parsed function must be as good as new afterwards.
+	PanicNext bool
+}
+
+// UserPanic is the value a catalogue function panics with when asked to.
+type UserPanic struct{ Fn string }
+
+func (r *Recorder) maybePanic(name string) {
+	if r != nil && r.PanicNext && !r.inside {
+		r.PanicNext = false
+		panic(UserPanic{Fn: name})
+	}
 }
 
 func (r *Recorder) add(fn string, arg interface{}, failed bool) {
@@ -181,6 +194,7 @@ func BuildConfigOrder(rec *Recorder, funcs, accessor, accessorFirst bool) jsonpa
 					rec.Reenter()
 					rec.inside = false
 				}
+				rec.maybePanic(name)
 				out, err := gen.ApplyFilter(name, v)
 				if name == "fnest" {
 					// a user function that runs a JSONPath of its own and hands the inner error on as it is
@@ -195,6 +209,7 @@ func BuildConfigOrder(rec *Recorder, funcs, accessor, accessorFirst bool) jsonpa
 		for _, name := range gen.AggNames {
 			name := name
 			cfg.SetAggregateFunction(name, func(vs []interface{}) (interface{}, error) {
+				rec.maybePanic(name)
 				out, err := gen.ApplyAggregate(name, vs)
 				if name == "gnest" {
 					out, err = nestedFirst("$[1]", append([]interface{}{}, vs...), out, err)
